@@ -84,3 +84,31 @@ Example C19_clean :
             (3%N, mkFs "c.Leaf" None []); (4%N, mkFs "c.Mid" None [])] in
   typecheck_cas sEx (mkCas [mkView (mkSofa 1 1 "_InitialView" None None None None) [1%N]] h 2) = Ok [].
 Proof. vm_compute. reflexivity. Qed.
+(* ids at the generator, names without a namespace.  A fresh CAS with one view has handed out id 1 (the sofa); the holder was
+   added with keep_id under id 2, exactly the id the CAS would have generated next, so the generator stands at 3.  The owner
+   (type "Owner", no namespace; "pkg.Owner" shares its short name) is only referenced and has no id, nor have its array and
+   the elements: the owner is met first and takes 3, the elements of its inline array 4 and 5; its `items` (element type
+   "Item") holds ["legacy.Item"; "Item"] -> one violation under id 3.  With the generator left at 2 (an id kept by add that was not
+   reserved) the same heap is outside the premises (ids_okb) and the traversal meets id 2 twice: this is why the check
+   derives the generator's position from the way the CAS was built. *)
+Definition sNames : schema :=
+  [mkTi "Item" ["Item"; "uima.cas.TOP"] [];
+   mkTi "legacy.Item" ["legacy.Item"; "uima.cas.TOP"] [];
+   mkTi "Owner" ["Owner"; "uima.cas.TOP"]
+        [mkFd "items" "items" "uima.cas.FSArray" (Some "Item") false; mkFd "ref" "ref" "Owner" None false];
+   mkTi "pkg.Owner" ["pkg.Owner"; "Owner"; "uima.cas.TOP"]
+        [mkFd "items" "items" "uima.cas.FSArray" (Some "Item") false; mkFd "ref" "ref" "Owner" None false];
+   mkTi "uima.cas.FSArray" ["uima.cas.FSArray"; "uima.cas.ArrayBase"; "uima.cas.TOP"] [mkFd "elements" "elements" "uima.cas.TOP" None true];
+   mkTi "uima.cas.TOP" ["uima.cas.TOP"] []].
+Definition hNames : heap :=
+  [(1%N, mkFs "pkg.Owner" (Some 2) [("ref", VRef 2%N)]);
+   (2%N, mkFs "Owner" None [("items", VRef 3%N)]);
+   (3%N, mkFs "uima.cas.FSArray" None [("elements", VList [VRef 4%N; VRef 5%N])]);
+   (4%N, mkFs "legacy.Item" None []); (5%N, mkFs "Item" None [])].
+Definition cNames (next : Z) : cas := mkCas [mkView (mkSofa 1 1 "_InitialView" None None None None) [1%N]] hNames next.
+
+Example C19_id_at_generator :
+  wf_heapb false sNames hNames = true /\ seeds_liveb hNames (member_seeds (cNames 3)) = true /\ ids_okb hNames 3 = true /\
+  tc_heapb sNames hNames = true /\ typecheck_cas sNames (cNames 3) = Ok [Some 3] /\
+  ids_okb hNames 2 = false /\ typecheck_cas sNames (cNames 2) = Err EDupId.
+Proof. repeat split; vm_compute; reflexivity. Qed.
